@@ -42,6 +42,8 @@ type harness struct {
 	reported map[string]int // violations already shrunk and written, per signature and finding key
 
 	worlds     []worldEntry // every API value of this process (history.go)
+	recentOK   []ReqSpec    // the most recent successful requests on the current world (candidate history of a state-dependent failure)
+	recentWi   int
 	sample     []remembered
 	sampleRand *hx.Rand
 	served     int
@@ -67,7 +69,14 @@ func (v *verdict) kind() string {
 		}
 	}
 	if len(v.fails) > 0 {
-		return "property"
+		for _, f := range v.fails {
+			if f.oracle != "additional-links" {
+				return "property"
+			}
+		}
+		// keeping a custom resolver's additional link is the resolver interface's documentation, not
+		// part of C19's statement: a disagreement there is reported without claiming the property
+		return "correspondence"
 	}
 	if v.corr != "" || v.spec != "" {
 		return "correspondence"
@@ -479,6 +488,23 @@ func (h *harness) runBatch(w World, schema *jsonapi.Schema, reqs []ReqSpec, sour
 			}
 		}
 		h.record(&c, v, 1)
+		if len(h.worlds) > 0 && c.Req.Inject == nil {
+			h.remember(len(h.worlds)-1, c.Req, v.realObs)
+			if h.recentWi != len(h.worlds)-1 {
+				h.recentWi, h.recentOK = len(h.worlds)-1, nil
+			}
+			if v.kind() != "" {
+				for _, q := range h.recentOK {
+					c.Before = append(c.Before, Step{Req: q})
+				}
+			}
+			if real.Panic == "" && real.Status >= 200 && real.Status <= 299 && v.kind() == "" {
+				h.recentOK = append(h.recentOK, c.Req)
+				if len(h.recentOK) > 40 {
+					h.recentOK = h.recentOK[len(h.recentOK)-40:]
+				}
+			}
+		}
 		if v.kind() != "" {
 			h.report(c, v)
 		}
